@@ -221,6 +221,18 @@ impl Check for C03 {
                 idx += 1;
             }
         }
+        // very wide containers: more direct children than the thread-local node buffer holds
+        // (196 607 nodes), whole-input and embedded; in the thorough tier of the native build one
+        // array with more than 2^24 elements (the width of the packed child index)
+        let widths: &[(usize, bool)] = if g.tier == Tier::Quick { &[(200_000, false), (100_000, true)] } else { &[(196_606, false), (200_000, false), (420_000, false), (100_000, true), (250_000, true)] };
+        for (k, (n, object)) in widths.iter().enumerate() {
+            if g.mine(1000 + k as u64) && (g.scale >= 0.5 || k == 0) {
+                emit(Case::with("wide", vec![], &[*n as i64, *object as i64]));
+            }
+        }
+        if g.tier == Tier::Thorough && g.build == "native-rel" && g.shard == 3 % g.nshards {
+            emit(Case::with("wide", vec![], &[(1 << 24) + 9, 0]));
+        }
         // a few large generated documents (heap node buffer instead of the thread-local one)
         let nbig = if g.tier == Tier::Quick { 1 } else { 6 };
         for k in 0..nbig {
@@ -247,6 +259,32 @@ impl Check for C03 {
                 ctx.class("doc:big");
                 check_doc(ctx, &c.input, false);
             }
+            "wide" => {
+                let (n, object) = (c.p(0) as usize, c.p(1) != 0);
+                let mut b = Vec::with_capacity(n * 12);
+                b.push(if object { b'{' } else { b'[' });
+                for i in 0..n {
+                    if i > 0 {
+                        b.push(b',');
+                    }
+                    if object {
+                        b.extend_from_slice(format!("\"{}\":", i).as_bytes());
+                    }
+                    // mostly tiny scalars; strings and containers among them (they carry indices)
+                    match i % 97 {
+                        0 => b.extend_from_slice(b"\"s\""),
+                        1 => b.extend_from_slice(b"[7]"),
+                        2 => b.extend_from_slice(b"{\"k\":null}"),
+                        _ => b.push(b'0' + (i % 10) as u8),
+                    }
+                }
+                b.extend_from_slice(if object { b",\"last\":\"end\"}" } else { b",\"end\"]" });
+                ctx.class("doc:wide");
+                ctx.nontrivial();
+                // the very wide one: whole-input parse only (memory), the others through every route
+                check_doc(ctx, &b, n > 1_000_000);
+                ctx.sample("wide");
+            }
             e => {
                 check_doc(ctx, &c.input, false);
                 ctx.sample(e);
@@ -254,6 +292,6 @@ impl Check for C03 {
         }
     }
     fn required_classes(&self, _b: &str, _t: Tier) -> Vec<&'static str> {
-        vec!["doc:valid", "doc:duplicate-keys", "doc:corpus", "doc:big"]
+        vec!["doc:valid", "doc:duplicate-keys", "doc:corpus", "doc:big", "doc:wide"]
     }
 }
